@@ -14,8 +14,9 @@
 //   num: d = IndicesSyncer::sync() (DefaultNumberer: new local index = size_t max, printed M),
 //        c = sync(numberer, fixed) with the user numberer g -> 1000+g;
 //        s = sync(numberer, fixed) with a numberer object that has state: it hands out 2000, 2001, ... and counts its
-//            calls (the same object is used for the second round); with ord=a the numbers depend on the arrival order
-//            and are printed as S (the oracle checks that they are distinct and from the block handed out);
+//            calls (the same object is used for the second round); the numbers depend on the order in which the
+//            messages are processed and are printed as S (the oracle checks that they are distinct and from the block
+//            handed out, and that the numberer was called once per added index);
 //        ord: a = arrival order, f = fixed order (only with num=c|s);  del: how status d is carried out:
 //        m = RemoteIndexListModifier<.,.,true>::remove + modifier.repairLocalIndexPointers(), r = SLList modify
 //        iterators + Dune::repairLocalIndexPointers as dune/common/parallel/test/syncertest.cc does;
@@ -266,7 +267,7 @@ struct Observed {
 static std::string observe(const Case& c, PIS& is, RI& ri, const RankState& w, bool afterSync, long calls,
                            const char* tag, std::ostringstream& bad0, Observed& ob) {
   std::ostringstream os, bad;
-  bool hide = c.num == 's' && !c.fixed;
+  bool hide = c.num == 's';
   std::set<std::size_t> counted;
   {
     os << "I[";
